@@ -79,8 +79,9 @@ CLAIMS["C07"] = dict(
 CLAIMS["C03"] = dict(
     text=("Deductive proof, for the packetizers whose payloads are windows of the input (rtpfragmented, rtpklv, rtplpcm, rtpsimpleaudio), "
           "that the emitted payloads tile the input frame in order with no gap or overlap (same backing array, offset j*limit, lengths summing "
-          "to the frame length), which is exactly what the corresponding depacketizer concatenates."),
-    note=TRUST + "Only the encoder half (tiling) is machine-checked; the decoder's concatenation is covered by its C08 contract, and the remaining codecs (H264/H265/AV1/VP8/VP9/MPEG/AC-3/M-JPEG bit-level headers) are not decided for round-trip identity.",
+          "to the frame length), which is exactly what the corresponding depacketizer concatenates; and, for the AV1 packetizer, that a packet is closed "
+          "with the 'continues in next packet' flags (Y, then Z) exactly when a proper part of the current OBU was written into it (assertion at the two closure calls)."),
+    note=TRUST + "Only the encoder half (tiling, AV1 aggregation flags) is machine-checked; the decoder's concatenation is covered by its C08 contract, and the remaining codecs (H264/H265/VP8/VP9/MPEG/AC-3/M-JPEG bit-level headers, AV1 LEB128 sizes) are not decided for round-trip identity.",
     design="DESIGN.md section 4, C03",
 )
 
